@@ -21,7 +21,7 @@ import (
 
 type vfFeat struct {
 	versions, protocols, codecs, compressions, streams []int32
-	h2c, tls, certs, trailers, halfH1, get, limit       bool
+	h2c, tls, certs, trailers, halfH1, get, limit      bool
 }
 
 // vfTri is a tri-state flag: 0 absent, 1 true, 2 false.
@@ -56,8 +56,8 @@ type vfCfgEntry struct {
 
 type vfCfg struct {
 	Versions, Protocols, Codecs, Compressions, Streams []int32
-	H2C, TLS, Certs, Trailers, HalfH1, Get, Limit       vfTri
-	Include, Exclude                                    []vfCfgEntry
+	H2C, TLS, Certs, Trailers, HalfH1, Get, Limit      vfTri
+	Include, Exclude                                   []vfCfgEntry
 }
 
 func vfHas(s []int32, v int32) bool {
